@@ -14,7 +14,11 @@ import (
 // ---------------------------------------------------------------- random semantic configurations
 
 var customMethods = []string{"PUT", "DELETE", "PATCH", "patch", "OPTIONS", "PURGE", "Put", "QUERY", "query"}
-var reqHdrUniverse = []string{"authorization", "x-a", "x-b", "content-type", "x-requested-with", "x-a-b", "a", "zz-last"}
+var reqHdrUniverse = []string{"authorization", "x-a", "x-b", "content-type", "x-requested-with", "x-a-b", "a", "zz-last",
+	// every non-alphanumeric token character, placed after letters (so that case variants have an upper-case letter in front)
+	"x_trace_id", "x^caret", "x`tick", "x|bar~tilde", "x!#$%&'*+.", "0-9",
+	// longer than the small buffers a case-mapping or lookup helper might use (32 / 64 bytes)
+	"x-tenant-identifier-for-the-upstream-ab", "x-" + "abcdefghijklmnopqrstuvwxyz0123456789-abcdefghijklmnopqrstuvwxyz0123456789" + "-id"}
 
 func normalizeMethod(m string) string {
 	u := strings.ToUpper(m)
@@ -84,8 +88,15 @@ func randSem(rng *rand.Rand) Sem {
 		s.MaxAge = -1
 	case 1:
 		s.MaxAge = 1 + rng.Intn(86400)
+	case 2: // boundary values: around Fetch's default of 5 s, the documented maximum, small ones
+		s.MaxAge = []int{1, 2, 4, 5, 6, 9, 10, 59, 60, 600, 7200, 86399, 86400}[rng.Intn(13)]
 	}
-	switch rng.Intn(4) {
+	switch rng.Intn(5) {
+	case 4: // names with token punctuation / beyond small buffers
+		s.Expose = []string{"x_exposed_id", "x^e"}
+		if rng.Intn(2) == 0 {
+			s.Expose = append(s.Expose, "x-" + "abcdefghijklmnopqrstuvwxyz0123456789-abcdefghijklmnopqrstuvwxyz0123456789" + "-ex")
+		}
 	case 0:
 		if !s.Cred {
 			s.Expose = []string{"*"}
@@ -95,8 +106,11 @@ func randSem(rng *rand.Rand) Sem {
 	case 2:
 		s.Expose = []string{"x-e1", "etag"}
 	}
-	if rng.Intn(3) == 0 {
+	switch rng.Intn(6) {
+	case 0, 1:
 		s.Status = 200 + rng.Intn(100)
+	case 2:
+		s.Status = []int{200, 201, 203, 204, 205, 206, 226, 255, 256, 298, 299}[rng.Intn(11)]
 	}
 	return s
 }
